@@ -364,7 +364,11 @@ fn roll(rng: &mut Rng, ctx: &mut Ctx) {
         if k % 40 == 39 { ids.reverse(); }
         // the extreme id needs a 2 GiB table: only in the thorough tier
         if ctx.thorough && k == 7 { ids = vec![i32::MAX, -123, i32::MAX]; }
-        let frame = im::Frame { id: PrimitiveArray::from_vec(ids.clone()), ports: vec![], start: None, end: None, item_offset: None, item: None };
+        // the mask is a function of the id column alone: the other columns are present in every other case (as in a game of version 2.2+ / 3.0+)
+        let n = ids.len();
+        let frame = im::Frame { id: PrimitiveArray::from_vec(ids.clone()), ports: vec![],
+            start: if k % 2 == 1 { Some(im::Start { random_seed: PrimitiveArray::from_vec(vec![7u32; n]), scene_frame_counter: if k % 4 == 1 { Some(PrimitiveArray::from_vec(vec![0u32; n])) } else { None }, validity: None }) } else { None },
+            end: if k % 4 == 3 { Some(im::End { latest_finalized_frame: Some(PrimitiveArray::from_vec(vec![-123i32; n])), validity: None }) } else { None }, item_offset: None, item: None };
         for (mode, name) in [(Rollbacks::ExceptFirst, "first"), (Rollbacks::ExceptLast, "last")] {
             let got = std::panic::catch_unwind(|| frame.rollbacks(mode));
             let exp: Vec<bool> = (0..ids.len()).map(|i| if name == "first" { (0..i).any(|j| ids[j] == ids[i]) } else { (i+1..ids.len()).any(|j| ids[j] == ids[i]) }).collect();
@@ -563,6 +567,15 @@ fn start(rng: &mut Rng, ctx: &mut Ctx) {
         if line == "panic" { c.fail("C06", "panic while parsing a Game Start block"); }
         if !sj_ok && line.starts_with("ok") { c.fail("C19", "a name field with an invalid Shift-JIS sequence was accepted"); }
         c.tags = vec![format!("v{}.{}", v.0, v.1), format!("len{}", b.len()), format!("sjis{}", sj_ok as u8)];
+        // the incremental API on a stream that ends inside the declared block, exactly where an older layout would end: the block is
+        // what the payload table says, so this is an error, never an older version's Game Start
+        if k % 5 == 1 && line.starts_with("ok") { let at = file.len() - 1 - b.len();
+            for l in [320usize, 352, 416, 417, 418, 420, 584, 700, 701, 760] { if l < b.len() {
+                let cut = &file[..at + l];
+                let r = std::panic::catch_unwind(|| { let mut src = Cursor::new(cut); slippi::de::parse_header(&mut src, None).and_then(|_| slippi::de::parse_start(&mut src, None)).map(|st| { use peppi::game::Game as _; st.start().bytes.0.len() }) });
+                match r { Ok(Err(_)) => {} Ok(Ok(n)) => { c.fail("C05", format!("parse_start on a stream that ends {} bytes into a {}-byte Game Start block returns a start block of {} bytes", l, b.len(), n)); c.fail("C07", "incremental parse_start accepts a truncated Game Start block".to_string()); }
+                    Err(_) => c.fail("C06", "parse_start panicked on a truncated Game Start block".to_string()) } } }
+            c.tags.push("inc-cut".into()); }
         ctx.push(c);
     }
     // Game End blocks
@@ -632,6 +645,13 @@ fn ubj(rng: &mut Rng, ctx: &mut Ctx) {
         if k % 40 == 19 { // wide but shallow: many maps in total, little nesting
             let n = 100 + (rng.next() % 120) as usize; body.clear(); for i in 0..n { body.extend(b"U\x03"); body.extend(format!("{:03}", i).as_bytes()); body.push(b'{'); if i % 7 == 0 { body.extend(b"U\x01x{U\x01yl\x00\x00\x00\x01}"); } body.push(b'}'); } clean = true; }
         if k % 9 == 8 && !body.is_empty() { let i = (rng.next() as usize) % body.len(); body[i] = (rng.next() >> 8) as u8; clean = false; }
+        // a length written with another UBJSON integer type (`l` int32, `i` int8, `I` int16, `L` int64) — negative, zero, small, huge — where the
+        // format subset has `U`: for a string value or for a key
+        if k % 9 == 4 && body.len() >= 2 { let spots: Vec<usize> = std::iter::once(0usize).chain((0..body.len() - 2).filter(|&i| body[i] == b'S' && body[i + 1] == b'U').map(|i| i + 1)).filter(|&i| body[i] == b'U').collect();
+            if !spots.is_empty() { let i = spots[(rng.next() as usize) % spots.len()];
+                let rep: Vec<u8> = match rng.next() % 8 { 0 => { let mut v = vec![b'l']; v.extend((-1i32).to_be_bytes()); v } 1 => { let mut v = vec![b'l']; v.extend(i32::MIN.to_be_bytes()); v } 2 => { let mut v = vec![b'l']; v.extend(3i32.to_be_bytes()); v }
+                    3 => { let mut v = vec![b'l']; v.extend(i32::MAX.to_be_bytes()); v } 4 => vec![b'i', 0xff], 5 => vec![b'I', 0x80, 0x00], 6 => { let mut v = vec![b'L']; v.extend((-2i64).to_be_bytes()); v } _ => { let mut v = vec![b'l']; v.extend(0i32.to_be_bytes()); v } };
+                body.splice(i..i + 2, rep); clean = false; } }
         let mut r = simple((3,16,0), &[(0,0,2)], 1, &[], rng); r.metadata = Some(body.clone());
         let file = encode(&r);
         let mut fails: Vec<(String, String)> = vec![];
@@ -676,8 +696,12 @@ fn peppi_suite(rng: &mut Rng, ctx: &mut Ctx) {
         // metadata nested around the deepest level the .slp reader accepts (127 maps): whatever it accepts must survive the JSON copy
         let deep = if k % 12 == 5 { Some([127usize, 128, 126, 129][(k / 12) % 4]) } else { None };
         if let Some(d) = deep { let mut m = vec![]; for _ in 0..d - 1 { m.extend(b"U\x01a{"); } for _ in 0..d - 1 { m.push(b'}'); } r.metadata = Some(m); }
-        let b = encode(&r);
         let comp = comps[k % 3]; let hash = k % 2 == 0;
+        // every other hashed replay gets a digest with one or two leading zero hex digits (the random seed of the start block is varied until it
+        // has): the stored string is 16 digits wide whatever the value
+        if hash && k % 4 == 0 && r.start_block.len() >= 320 { let want = if k % 8 == 0 { 56 } else { 60 };
+            for t in 0..20000u32 { r.start_block[316..320].copy_from_slice(&t.to_be_bytes()); if xxhash_rust::xxh3::xxh3_64(&encode(&r)) >> want == 0 { break; } } }
+        let b = encode(&r);
         let zero_ports = slots_of(&r.start_block).is_empty();
         let mut fails: Vec<(String, String)> = vec![];
         let res = std::panic::catch_unwind(std::panic::AssertUnwindSafe(|| -> Result<String, String> {
